@@ -55,7 +55,7 @@ EventsOf(a) ==
       [] a \in {"Remove", "RemoveKeepTree", "RemoveChildren",
                 "Get", "GetKV", "Contains", "Lpm", "Spm", "Cover", "Children"}
                       -> {[a |-> a, p |-> p] : p \in Pfxs}
-      [] a \in {"Clear", "Iter", "Len", "CloneCheck", "Collect", "Serde"} -> {[a |-> a]}
+      [] a \in {"Clear", "Iter", "Len", "CloneCheck", "Collect", "Serde", "Misc"} -> {[a |-> a]}
       [] a = "ViewDesc" -> {[a |-> a, p |-> p] : p \in Pfxs}
       [] a = "SplitOp" -> {[a |-> a, p |-> p, op |-> o] : p \in Pfxs, o \in {"Union", "Inter", "Diff", "CovDiff"}}
       [] a = "Alias" -> {[a |-> a, p |-> p, how |-> w] : p \in Pfxs, w \in {"iter", "split", "split_union"}}
